@@ -16,7 +16,7 @@ namespace Ombott.Body
 open Py Ombott.Chunked
 
 /-- the size error is answered 413 under the `errors_map` of the source -/
-theorem size_error_413 : raise_ Ombott.Gen.errorsMap .bodySizeError "RequestError" = .http 413 := by
+theorem size_error_413 : raise_ Ombott.Gen.bodyErrorsMap .bodySizeError "RequestError" = .http 413 := by
   decide
 
 /-- **oversize ⇒ rejected, Content-Length framing**: when the body the stream delivers (the first
@@ -63,7 +63,7 @@ theorem oversize_rejected_chunked (buf m : Nat) (cl : Int) (pre : List Chunk) (s
 `errors_map` of the source raises the mapped `HTTPError` 413 (which `_handle` returns as the
 response), having consumed at most limit + buffer; the failure is remembered. -/
 theorem oversize_413 (cfg : Cfg) (n m : Nat) (te : Option Str) (input : Rec)
-    (hmap : cfg.errorsMap = Ombott.Gen.errorsMap) (hmb : cfg.maxBody = some m)
+    (hmap : cfg.errorsMap = Ombott.Gen.bodyErrorsMap) (hmb : cfg.maxBody = some m)
     (hte : isChunked te = false) (hb : 0 < cfg.memfile)
     (hov : min n input.st.data.length > m) :
     (({ cfg := cfg, clHeader := some (natStr n), teHeader := te, input := input } : Req).body).1
